@@ -499,3 +499,61 @@ def register(reg):
       "Calculate emits nothing. Partial: rlcompleter / formula_prompt introspection and dirty-set effects are not modelled.",
       "calls made in-process on the functions main.py exports.",
       "Lean 4 theorem (rollback at a mid-bundle checkpoint) + direct oracle on read-only calls")
+
+  reg("C25", "proof",
+      "PARTIAL (schema and frame clauses proved; totality of the migration bodies searched). table_data_set.TableDataSet (the interpreter migrations run against and test_migrations applies their output with) is "
+      "modelled exactly as two insertion-ordered dicts with list columns (GristModel/Lenient.lean: KeyError/IndexError where the "
+      "Python raises, None and repeated row ids, misaligned value lists, in-place overwrite on AddColumn/RenameColumn/RenameTable "
+      "onto existing names). Proved for ALL documents and data: lenient_schema_data_independent (the schema reached depends only "
+      "on the start schema and the schema-action subsequence), migrate_schema_reaches_current (for EVERY version 0..SCHEMA_VERSION: "
+      "any document with the version-v metadata schema, any user tables and data, and any action list whose metadata schema actions "
+      "are the ones the REAL create_migrations emitted for that version, if applied without exception reaches exactly the current "
+      "metadata schema as a dict - 47 generated obligations evaluated by the kernel on lean/Generated/Migrations.lean, regenerated "
+      "from the working tree on every run), migrate_frame/applyL_frame (actions naming only _grist_* tables leave every other table's "
+      "rows, cells and schema untouched), user_schema_action_keeps_cells (ModifyColumn/AddColumn/RemoveColumn/RenameTable on a user "
+      "table keep its rows and the cells of all other columns), current_only_version + version_act_only_rewrites_version (the list "
+      "emitted at the current version is the single schemaVersion update, which changes nothing else). NOT proved, searched only: "
+      "totality of the data-dependent Python bodies of the 46 migration functions (loops over records, JSON parsing) and that the "
+      "emitted list for a populated document has the same metadata schema actions as for the empty one; both are checked on random "
+      "documents at every version (real create_migrations + real TableDataSet, compared with the compiled model), with every "
+      "free-text metadata column swept with wrong-shape JSON, edge numbers, deep nesting and non-JSON text.",
+      "Version-v documents = schema_version0() + registered migrations 1..v, then populated; typed cells in database representation "
+      "(RefList/ChoiceList None or JSON text), referentially consistent metadata, well-formed identifiers/types; schema equality is "
+      "Python dict equality (column order legitimately differs); documented user-table effects of old migrations (m3/m7/m10/m17/m28/"
+      "m31) are allowed, m17's Image conversion is checked against its documented rule; col_info abstracted to (type,isFormula,"
+      "formula,reverseColId), checked per emitted action. 23 recorded findings: migrations 15/16/29/34/35/45 raise on Text cells "
+      "holding JSON of the wrong shape, NaN/inf/huge numbers or deeply nested JSON (known_findings.json).",
+      "Lean 4 theorems (induction over the action list, dict lemmas) + kernel-evaluated generated obligations + differential "
+      "correspondence + direct oracle on the real migration chain")
+
+  reg("C13", "proof",
+      "twowaymap.TwoWayMap (all five bin types, the except-block rollback of insert, CPython's hash-free pop on an empty "
+      "dict), lookup.SimpleLookupMapping / ContainsLookupMapping (itertools.product over per-column key groups, "
+      "match_empty, strings are no containers), remove_row_id, the LookupSet sorted_versions cache with "
+      "_do_lookup_with_sort / _reset_sorted_versions, table.make_sort_spec, make_sort_key's '-' prefix and get_one are "
+      "modelled line by line (GristModel/Lookup.lean) as an event machine of one LookupMapColumn (cell writes, "
+      "update_record / _reset_sorted_versions deliveries, unset, lookup). Proved for all inputs: twoWayMap_bins_lawful + "
+      "twoWayMap_fwd_bwd_inverse (for every pair of the five bin types _fwd and _bwd stay mutually inverse after any "
+      "sequence of insert/remove/remove_left/remove_right/clear, failing calls included); index_exact / _simple / "
+      "_contains (after ANY event list a delivered row is in the set under K iff its cells match K column by column; "
+      "the product construction yields exactly the matching keys); sorted_cache_valid + lookup_hit_eq_fresh (a cached "
+      "sorted version of a set whose rows are delivered is the sort of the current set under current values, so a cache "
+      "hit equals a fresh sort) under one stated ordering assumption (Ev.allowed: key cells of a row are not rewritten "
+      "between a _reset_sorted_versions that ran before its pending update_record and that update_record; its necessity "
+      "is shown by a concrete counterexample, which the check also drives into the real objects); do_lookup_spec / "
+      "do_lookup_sorted (lookup = naive filter by the column-wise match, sorted by the SortKey of the spec, strictly "
+      "increasing, a permutation of the matches, independent of set iteration order - using C14's keyLt order theory); "
+      "lookupOne_spec; make_sort_spec_spec. Differentially validated only: that the model equals the real code - every "
+      "LookupMapColumn of table T of a live engine is instrumented at run time and its exact event stream (with every "
+      "result, the full _fwd/_bwd and every cache entry after every bundle) is replayed through the compiled model; "
+      "TwoWayMap op sequences over all 25 bin pairs and make_sort_spec are diffed directly; the engine's scheduling "
+      "(that every changed row is delivered; the ordering assumption, checked on every real stream) and the key type "
+      "conversion are not modelled. Direct oracle: naive filter+sort per the property text on every probe formula cell "
+      "after every bundle, naive recomputation of every real index and cache.",
+      "sort values of returned rows mutually comparable (else only the row set is demanded); keys not NaN, exact keys "
+      "hashable; model universe None/bool/int/float/str/AltText + lists (key cells), None/bool/int/str (sort cells; "
+      "manualSort positions scaled by 2^80); 0/False in a CONTAINS(match_empty) column accepted either way; key type "
+      "conversion taken from the real tree; T <= ~8 rows, 14 of 22 probe formulas per history; one recorded finding "
+      "(stale stored lookup after a type change of the key column of an EMPTY table, known_findings.json).",
+      "Lean 4 theorems (bin-type contract + relational invariant of TwoWayMap; event-machine invariant with ghost dirty "
+      "sets; uniqueness of the sorted permutation) + differential correspondence on instrumented live objects + direct oracle")
